@@ -264,6 +264,8 @@ void sim_note(const char *fmt, ...)
 }
 
 static char verdict_prop[16] = "-", verdict_cls[48] = "-", verdict_msg[1500] = "";
+static char soft_prop[16], soft_cls[48], soft_msg[1500];
+static void soft_to_verdict(void);
 
 extern void engine_fill_result(char *buf, size_t n); /* engine-specific key=value additions */
 extern void engine_on_sp(struct vthread *t, int kind, const volatile void *addr);
@@ -275,6 +277,10 @@ void sim_finish(const char *status)
 		for(;;)
 			pause();
 	G.active = false;
+	if(!strcmp(status, "ok") && soft_prop[0]) {
+		soft_to_verdict();
+		status = "viol";
+	}
 	char extra[3072];
 	extra[0] = 0;
 	engine_fill_result(extra, sizeof(extra));
@@ -309,13 +315,48 @@ void sim_finish(const char *status)
 	_exit(0);
 }
 
+/* A soft violation does not end the run: the first one becomes the verdict when the run ends (or when a fatal violation ends
+ * it), and the first violation of every other property met afterwards is listed as "also=<prop>:<class>", so that one run can be
+ * attributed to every property it breaks. */
+void sim_violation_soft(const char *prop, const char *cls, const char *fmt, ...)
+{
+	va_list ap;
+	va_start(ap, fmt);
+	if(!soft_prop[0]) {
+		snprintf(soft_prop, sizeof(soft_prop), "%s", prop);
+		snprintf(soft_cls, sizeof(soft_cls), "%s", cls);
+		vsnprintf(soft_msg, sizeof(soft_msg), fmt, ap);
+	} else if(strcmp(prop, soft_prop)) {
+		char tag[32];
+		snprintf(tag, sizeof(tag), "also=%s:", prop);
+		if(!strstr(note_buf, tag))
+			sim_note("also=%s:%s ", prop, cls);
+	}
+	va_end(ap);
+}
+
+bool sim_has_soft_violation(void) { return soft_prop[0] != 0; }
+
+static void soft_to_verdict(void)
+{
+	snprintf(verdict_prop, sizeof(verdict_prop), "%s", soft_prop);
+	snprintf(verdict_cls, sizeof(verdict_cls), "%s", soft_cls);
+	snprintf(verdict_msg, sizeof(verdict_msg), "%s", soft_msg);
+}
+
 void sim_violation(const char *prop, const char *cls, const char *fmt, ...)
 {
 	va_list ap;
 	va_start(ap, fmt);
-	snprintf(verdict_prop, sizeof(verdict_prop), "%s", prop);
-	snprintf(verdict_cls, sizeof(verdict_cls), "%s", cls);
-	vsnprintf(verdict_msg, sizeof(verdict_msg), fmt, ap);
+	if(soft_prop[0]) {
+		if(strcmp(prop, soft_prop))
+			sim_note("also=%s:%s ", prop, cls);
+		soft_to_verdict();
+	} else {
+		snprintf(verdict_prop, sizeof(verdict_prop), "%s", prop);
+		snprintf(verdict_cls, sizeof(verdict_cls), "%s", cls);
+		vsnprintf(verdict_msg, sizeof(verdict_msg), fmt, ap);
+	}
 	va_end(ap);
 	sim_finish("viol");
 }
@@ -822,6 +863,7 @@ struct vthread *sim_spawn(int kind, int rank, void *(*fn)(void *), void *arg)
 
 void sim_init_run(void)
 {
+	soft_prop[0] = 0;
 	memset(&G, 0, sizeof(G));
 	G.replay = false;
 	prng_seed(&G.dec_rng, mix64((uint64_t)P.dseed, 0xdec));
